@@ -50,6 +50,7 @@ struct Fd {
 	int kind = K_NONE;
 	bool open = false;
 	bool nonblock = false;
+	bool linger = false; // SO_LINGER with a positive timeout: close() waits for unsent data even on a non-blocking socket
 	int family = 0, port = 0;
 	int ep = -1;
 	std::deque<int> backlog;
